@@ -30,26 +30,26 @@ struct LangPlan {
 static PLANS: &[LangPlan] = &[
   LangPlan {
     lang: "javascript",
-    stmts: &["f(a)", "f(b)", "f(a, a)", "f(a, b)", "a + a", "a + b"],
+    stmts: &["f(a)", "f(b)", "f(a, a)", "f(a, b)", "a + a", "a + b", "f(b, a)"],
     sep: ";\n",
     wrap: &[("", ";\n", ";\n"), ("h(", ", ", ");\n"), ("{ ", "; ", " }\n")],
-    atoms: &["$A", "f($A)", "f($A, $A)", "$A + $B", "f($A, $B)", "f($$$A)", "$A + $A"],
+    atoms: &["$A", "f($A)", "f($A, $A)", "$A + $B", "f($A, $B)", "f($$$A)", "$A + $A", "f($B, $A)"],
     kinds: &["call_expression", "identifier"],
   },
   LangPlan {
     lang: "python",
-    stmts: &["f(a)", "f(b)", "f(a, a)", "f(a, b)", "a + a", "a + b"],
+    stmts: &["f(a)", "f(b)", "f(a, a)", "f(a, b)", "a + a", "a + b", "f(b, a)"],
     sep: "\n",
     wrap: &[("", "\n", "\n"), ("h(", ", ", ")\n"), ("[", ", ", "]\n")],
-    atoms: &["$A", "f($A)", "f($A, $A)", "$A + $B", "f($A, $B)", "f($$$A)", "$A + $A"],
+    atoms: &["$A", "f($A)", "f($A, $A)", "$A + $B", "f($A, $B)", "f($$$A)", "$A + $A", "f($B, $A)"],
     kinds: &["call", "identifier"],
   },
   LangPlan {
     lang: "rust",
-    stmts: &["f(a)", "f(b)", "f(a, a)", "f(a, b)", "a + a", "a + b"],
+    stmts: &["f(a)", "f(b)", "f(a, a)", "f(a, b)", "a + a", "a + b", "f(b, a)"],
     sep: ";\n",
     wrap: &[("fn m() { ", "; ", "; }\n"), ("fn m() { h(", ", ", "); }\n")],
-    atoms: &["$A", "f($A)", "f($A, $A)", "$A + $B", "f($A, $B)", "f($$$A)", "$A + $A"],
+    atoms: &["$A", "f($A)", "f($A, $A)", "$A + $B", "f($A, $B)", "f($$$A)", "$A + $A", "f($B, $A)"],
     kinds: &["call_expression", "identifier"],
   },
 ];
@@ -576,7 +576,7 @@ fn main() {
   let cov = json!({
     "evaluations": st.evals.load(Ordering::Relaxed),
     "distinct_nontrivial": st.nontrivial_docs.load(Ordering::Relaxed),
-    "rule": "rule documents = every operator (all/any/not, inside/has/precedes/follows x stopBy neighbor|end|rule) applied up to depth 2 over pattern atoms sharing $A/$B ($A, f($A), f($A,$A), $A+$B, f($A,$B), f($$$A), $A+$A) and kinds, plus matches-of-utility documents and constraints maps, plus the in-pattern family h([$A,] $$$[R], T) (a sibling on which T fails after binding is a failed alternative); sources = every sequence (all permutations with repetition) of <= k statements from a 6-statement alphabet as top-level statements, call arguments and block members, plus nesting chains; one evaluation = one (document, node); distinct_nontrivial = documents that matched some node, rejected some node and produced at least one non-empty binding",
+    "rule": "rule documents = every operator (all/any/not, inside/has/precedes/follows x stopBy neighbor|end|rule) applied up to depth 2 over pattern atoms sharing $A/$B ($A, f($A), f($A,$A), $A+$B, f($A,$B), f($$$A), $A+$A, f($B,$A): binds a NEW variable before it can fail on a bound one) and kinds, plus matches-of-utility documents and constraints maps, plus the in-pattern family h([$A,] $$$[R], T) (a sibling on which T fails after binding is a failed alternative); sources = every sequence (all permutations with repetition) of <= k statements from a 7-statement alphabet (incl. f(b, a): binds $A, then fails against a later f(a, a)) as top-level statements, call arguments and block members, plus nesting chains; one evaluation = one (document, node); distinct_nontrivial = documents that matched some node, rejected some node and produced at least one non-empty binding",
     "samples": samples.take(),
     "exhaustive": true,
     "matches": st.matches.load(Ordering::Relaxed),
